@@ -133,6 +133,11 @@ KIND(sigdef) {
         }
         size_t at = *progress;
         if (at >= n) at = n - 1;
+        {   /* a child killed inside the file form leaves its temporary file behind */
+            char path[256];
+            snprintf(path, sizeof(path), "%s/jls_sigdef_%d.jls", tmp ? tmp : "/tmp", (int) pid);
+            unlink(path);
+        }
         if (WIFSIGNALED(st)) {
             int sg = WTERMSIG(st);
             if (sg == SIGFPE) printf("FAULT SIGFPE\n");
